@@ -53,10 +53,6 @@ struct TrackedCan : ObjectHeader {      // CanMessage is final: same wire format
 };
 std::map<uint32_t, int> TrackedCan::freed; long TrackedCan::live = 0;
 
-static int native_threads() { int n = 0; DIR * d = opendir("/proc/self/task"); if (!d) return -1; while (readdir(d)) n++; closedir(d); return n - 2; }
-// a joined thread can linger in /proc for a moment while the kernel reaps it: only a count that stays different is a leak
-static bool threads_back_to(int base) { for (int i = 0; i < 200; i++) { if (native_threads() == base) return true; struct timespec ts = {0, 2000000}; nanosleep(&ts, nullptr); } return false; }
-
 static std::string dir;
 static const int sizes[] = {0, 1, 9, 10, 11, 50, 12000};      // 12000 objects = 576 KB in 128 KiB containers: more than the pipeline buffers, so workers block
 static const int NSIZES = 7;
@@ -69,7 +65,7 @@ static Outcome run_history(const std::vector<int> & h, int fsz, bool controlled,
     std::vector<ObjectHeaderBase *> got;
     TrackedCan::freed.clear();
     uint32_t nwritten = 0; bool wrote_session = false;
-    int base_threads = native_threads();
+    int base_threads = hc::native_threads();
 #ifdef WITH_ALLOC
     oc.err.reserve(256); oc.errkey.reserve(64);
     size_t base_live = alloc_live();
@@ -128,7 +124,7 @@ static Outcome run_history(const std::vector<int> & h, int fsz, bool controlled,
         if (n == 0) fail("written-object-not-freed", "object " + std::to_string(t) + " of " + std::to_string(nwritten));
         else if (n > 1) fail("written-object-freed-twice", "object " + std::to_string(t));
     }
-    if (!threads_back_to(base_threads)) fail("thread-left-behind", "native thread count " + std::to_string(native_threads()) + " baseline " + std::to_string(base_threads));
+    if (!hc::threads_back_to(base_threads)) fail("thread-left-behind", "native thread count " + std::to_string(hc::native_threads()) + " baseline " + std::to_string(base_threads));
 #ifdef WITH_ALLOC
     { std::vector<ObjectHeaderBase *>().swap(got); TrackedCan::freed.clear(); }      // the monitor's own allocations are not the library's
     size_t after = alloc_live();
@@ -158,7 +154,7 @@ int main(int argc, char ** argv) {
     // warm-up so that first-use allocations (iostreams, controller log) are not charged to a history
     { std::vector<int> w1 = {O_MISSING, O_UNWRITABLE, O_IN, READ, READ, CLOSE}, w2 = {O_OUT, WRITE, O_AGAIN, CLOSE};
       for (int k = 0; k < 2; k++) { wd::arm(60, "warmup"); run_history(w1, 1, k, 1, outpath); run_history(w2, 1, k, 1, outpath); } }
-    long n = 0, controlled_n = 0, exhaustive_n = 0, reads = 0, writes = 0; std::map<int, long> lens; std::string sample;
+    long n = 0, controlled_n = 0, exhaustive_n = 0, reads = 0, writes = 0; std::map<int, long> lens; std::string sample; std::vector<uint64_t> rhashes;
     for (long idx = from; idx < to; idx++) {
         hc::begin_case(std::to_string(idx));
         wd::arm(25, "c13-history");
@@ -176,6 +172,7 @@ int main(int argc, char ** argv) {
             }
             fsz = sizes[r.below(NSIZES)];
         }
+        if (idx >= (long)ex.size()) { uint64_t hh = 1469598103934665603ULL ^ (uint64_t)fsz; for (int sy : h) hh = hh * 1099511628211ULL ^ (uint64_t)(sy + 1); rhashes.push_back(hh & 0xffffffffffffULL); }
         bool controlled = r.chance(1, 20);
         std::ostringstream hs; hs << "file=" << fsz << (controlled ? " controlled" : "") << ":"; for (int s : h) { hs << " " << symname[s]; if (s == READ) reads++; if (s == WRITE) writes++; }
         wd::note(hs.str().c_str());
@@ -190,7 +187,9 @@ int main(int argc, char ** argv) {
     std::ostringstream o;
     o << "{\"histories\":" << n << ",\"exhaustive_histories\":" << exhaustive_n << ",\"controlled\":" << controlled_n << ",\"reads\":" << reads << ",\"writes\":" << writes << ",\"lengths\":{";
     bool first = true; for (auto & kv : lens) { o << (first ? "" : ",") << "\"" << kv.first << "\":" << kv.second; first = false; }
-    o << "},\"samples\":[" << hc::jstr(sample) << "]}";
+    o << "},\"random_history_hashes\":[";
+    for (size_t i = 0; i < rhashes.size(); i++) o << (i ? "," : "") << rhashes[i];
+    o << "],\"samples\":[" << hc::jstr(sample) << "]}";
     hc::stat(o.str());
     return 0;
 }
